@@ -557,6 +557,9 @@ func (r *resolver) resolveRef(rs *Resolved, s *Schema, ref string) (_ *Schema, d
 			if err != nil {
 				return nil, "", fmt.Errorf("loading %s: %w", fraglessRefURI, err)
 			}
+			if ls == nil {
+				return nil, "", fmt.Errorf("loading %s: loader returned a nil schema", fraglessRefURI)
+			}
 			// If the referenced document declares no $schema, it inherits the
 			// draft of the document that refers to it.
 			lrs, err = r.resolve(ls, fraglessRefURI, rs)
